@@ -70,7 +70,7 @@ def main():
         # first) in the regression corpus replayed by every later check
         own = name.split('-')[0]
         os.makedirs(os.path.join(ROOT, 'corpus'), exist_ok=True)
-        kept = 0
+        kept = 2 if '--no-save' in flags else 0
         for prop in [own] + [p for p in result["caught_by"] if p != own]:
             if kept >= 2 or prop not in checks or checks[prop]["exit"] != 1:
                 continue
@@ -85,6 +85,9 @@ def main():
     finally:
         if '--keep' not in flags:
             sh('git -C /repo worktree remove --force ' + wt)
+    if '--no-save' in flags:
+        print(json.dumps(result, indent=1))
+        return 0
     dest = os.path.join(ROOT, 'seeded', name)
     os.makedirs(dest, exist_ok=True)
     for fn in ('patch.diff', 'demo.py'):
